@@ -63,6 +63,140 @@ def _fd_table(func, name, out):
     out.append('def %s_first_closed : Int := %d' % (name, lo.value))
 
 
+# ---- ServerOptions.realize: the fallback `self.serverurl` "that process.spawn can use" ----------------------------------
+_FAMILIES = ('AF_UNIX', 'AF_INET')
+_CFG_KEYS = ('file', 'host', 'port')
+
+
+class _UrlSite:
+    """the translator's view of realize(): the only variable a stage's guard may mention is the url chosen so far"""
+    vars = {'self.serverurl': ('serverurl', 'truthy:(serverurl.any (fun s => !s.isEmpty))')}
+    consts = {'self.serverurl is None': '(serverurl).isNone', 'self.serverurl is not None': '(serverurl).isSome',
+              'self.serverurl == None': '(serverurl).isNone', 'self.serverurl != None': '(serverurl).isSome'}
+    const_types = {}
+    locals_inline = False
+    str_as_bytes = False
+
+
+def _stage_of(st, sconf):
+    """one stage of the choice: [if <guard>:] for config in [c for c in sconfigs if c['family'] is socket.AF_X]: ... -> dict"""
+    from extract import Tr, Untranslatable
+    guard = None
+    if isinstance(st, ast.If):
+        if st.orelse or len(st.body) != 1 or not isinstance(st.body[0], ast.For):
+            raise ValueError('realize: serverurl fallback: an `if` that is not a guard around one loop: ' + ast.unparse(st.test))
+        guard, st = st.test, st.body[0]
+    if not isinstance(st, ast.For) or st.orelse or not isinstance(st.target, ast.Name):
+        raise ValueError('realize: serverurl fallback: statement not understood: ' + ast.unparse(st)[:100])
+    var = st.target.id
+    it = st.iter
+    ok = (isinstance(it, ast.ListComp) and len(it.generators) == 1 and isinstance(it.elt, ast.Name)
+          and isinstance(it.generators[0].target, ast.Name) and it.elt.id == it.generators[0].target.id
+          and ast.unparse(it.generators[0].iter) in sconf and len(it.generators[0].ifs) == 1)
+    fam = None
+    if ok:
+        t = it.generators[0].ifs[0]
+        cv = it.elt.id
+        if (isinstance(t, ast.Compare) and len(t.ops) == 1 and isinstance(t.ops[0], (ast.Is, ast.Eq))
+                and ast.unparse(t.left) == "%s['family']" % cv and ast.unparse(t.comparators[0]) in ['socket.' + f for f in _FAMILIES]):
+            fam = ast.unparse(t.comparators[0]).split('.')[1]
+    if fam is None:
+        raise ValueError('realize: serverurl fallback: loop does not select the server configs of one family: ' + ast.unparse(it)[:120])
+    bound, defaults, fmt, args, first = {}, [], None, None, False
+    def key_of(e):
+        s = ast.unparse(e)
+        if isinstance(e, ast.Name) and e.id in bound:
+            return bound[e.id]
+        for k in _CFG_KEYS:
+            if s == "%s['%s']" % (var, k):
+                return k
+        raise ValueError('realize: serverurl fallback: %s is not a field of the server config the model knows' % s)
+    body = list(st.body)
+    for i, b in enumerate(body):
+        if isinstance(b, ast.Break) and i == len(body) - 1 and fmt is not None:
+            first = True
+        elif isinstance(b, ast.Assign) and len(b.targets) == 1 and isinstance(b.targets[0], ast.Name) and fmt is None:
+            bound[b.targets[0].id] = key_of(b.value)
+        elif (isinstance(b, ast.If) and not b.orelse and fmt is None and isinstance(b.test, ast.UnaryOp) and isinstance(b.test.op, ast.Not)
+              and isinstance(b.test.operand, ast.Name) and b.test.operand.id in bound and len(b.body) == 1
+              and isinstance(b.body[0], ast.Assign) and ast.unparse(b.body[0].targets[0]) == b.test.operand.id
+              and isinstance(b.body[0].value, ast.Constant) and isinstance(b.body[0].value.value, str)
+              and bound[b.test.operand.id] != 'port'):
+            defaults.append((bound[b.test.operand.id], b.body[0].value.value))
+        elif isinstance(b, ast.Assign) and ast.unparse(b.targets[0]) == 'self.serverurl' and fmt is None:
+            fa = _fmt_of(b.value)
+            if not fa or not isinstance(b.value, ast.BinOp):
+                raise ValueError('realize: serverurl fallback: url not a format: ' + ast.unparse(b.value))
+            fmt = fa[0]
+            r = b.value.right
+            args = [key_of(x) for x in (r.elts if isinstance(r, ast.Tuple) else [r])]
+            if fmt.count('%s') != len(args) or fmt.count('%') != len(args):
+                raise ValueError('realize: serverurl fallback: url format not understood: %r' % fmt)
+        else:
+            raise ValueError('realize: serverurl fallback: loop statement not understood: ' + ast.unparse(b)[:100])
+    if fmt is None:
+        raise ValueError('realize: serverurl fallback: the %s loop does not set self.serverurl' % fam)
+    g = 'true'
+    if guard is not None:
+        try:
+            g = Tr(_UrlSite, ast.parse('pass')).truth(guard)
+        except Untranslatable as ex:
+            raise ValueError('realize: serverurl fallback: guard `%s` not understood (%s)' % (ast.unparse(guard), ex))
+    return dict(family=fam, guard=g, guard_src=ast.unparse(guard) if guard is not None else None, first=first, fmt=fmt, args=args,
+                defaults=defaults, line=st.lineno)
+
+
+def server_url_stages():
+    """ServerOptions.realize(): `self.serverurl = None`, then one loop per address family over the configured servers, each
+    possibly guarded by a test of the url chosen so far (statements of another shape: extraction error)"""
+    f = _func('supervisor/options.py', 'ServerOptions.realize')
+    start = [i for i, st in enumerate(f.body) if isinstance(st, ast.Assign) and ast.unparse(st.targets[0]) == 'self.serverurl']
+    if len(start) != 1 or ast.unparse(f.body[start[0]].value) != 'None':
+        raise ValueError('realize: `self.serverurl = None` before the fallback loops was not found')
+    sconf, stages = set(), []
+    for st in f.body[start[0] + 1:]:
+        if isinstance(st, ast.Assign) and ast.unparse(st.value) == 'section.server_configs':
+            sconf.update(ast.unparse(t) for t in st.targets)
+        elif isinstance(st, ast.Expr) and isinstance(st.value, ast.Constant):
+            pass                                    # a string used as a comment
+        else:
+            stages.append(_stage_of(st, sconf))
+    if len(stages) != 2:
+        raise ValueError('realize: serverurl fallback: %d loops over the server configs; the model knows two' % len(stages))
+    return stages
+
+
+def serverurl_auto():
+    """_processes_from_section: `serverurl = get(section, 'serverurl', None)`; `if serverurl and serverurl.strip().upper() == 'AUTO':
+    serverurl = None` -> (token, [normalisers applied to the value before the comparison])"""
+    f = _func('supervisor/options.py', 'ServerOptions._processes_from_section')
+    asg = [n for n in ast.walk(f) if isinstance(n, ast.Assign) and len(n.targets) == 1 and isinstance(n.targets[0], ast.Name)
+           and isinstance(n.value, ast.Call) and ast.unparse(n.value.func) == 'get' and len(n.value.args) >= 2
+           and isinstance(n.value.args[1], ast.Constant) and n.value.args[1].value == 'serverurl']
+    if len(asg) != 1 or len(asg[0].value.args) != 3 or ast.unparse(asg[0].value.args[2]) != 'None' or asg[0].value.keywords:
+        raise ValueError("_processes_from_section: `serverurl = get(section, 'serverurl', None)` was not found")
+    v = asg[0].targets[0].id
+    tests = [n for n in ast.walk(f) if isinstance(n, ast.If) and any(isinstance(x, ast.Name) and x.id == v for x in ast.walk(n.test))]
+    others = [n for n in ast.walk(f) if isinstance(n, ast.Assign) and n is not asg[0] and any(ast.unparse(t) == v for t in n.targets)]
+    if len(tests) != 1 or len(others) != 1 or tests[0].orelse or tests[0].body != [others[0]] or ast.unparse(others[0].value) != 'None':
+        raise ValueError('_processes_from_section: the AUTO test of serverurl is not `if ...: %s = None` (once)' % v)
+    t = tests[0].test
+    if not (isinstance(t, ast.BoolOp) and isinstance(t.op, ast.And) and len(t.values) == 2 and ast.unparse(t.values[0]) == v):
+        raise ValueError('_processes_from_section: AUTO test not `%s and <comparison>`: %s' % (v, ast.unparse(t)))
+    c = t.values[1]
+    if not (isinstance(c, ast.Compare) and len(c.ops) == 1 and isinstance(c.ops[0], ast.Eq)
+            and isinstance(c.comparators[0], ast.Constant) and isinstance(c.comparators[0].value, str)):
+        raise ValueError('_processes_from_section: AUTO comparison not understood: ' + ast.unparse(c))
+    norm, e = [], c.left
+    while isinstance(e, ast.Call) and isinstance(e.func, ast.Attribute) and not e.args and not e.keywords \
+            and e.func.attr in ('strip', 'upper', 'lower'):
+        norm.append(e.func.attr)
+        e = e.func.value
+    if ast.unparse(e) != v:
+        raise ValueError('_processes_from_section: AUTO comparison not understood: ' + ast.unparse(c))
+    return c.comparators[0].value, list(reversed(norm))
+
+
 def TABLES():
     out = []
     f = _func('supervisor/process.py', 'Subprocess._spawn_as_child')
@@ -174,6 +308,23 @@ def TABLES():
     from sites.config import env_merge_loop
     out.append("-- read_config: `env = section.environment.copy(); env.update(proc.environment); proc.environment = env` per process")
     out.append('def read_config_env_copied : Bool := %s' % ('true' if env_merge_loop()['copied'] else 'false'))
+    # options.py realize(): which configured server the url handed to children (options.serverurl) is built from
+    out.append('-- ServerOptions.realize: self.serverurl = None, then per stage: [if <guard>:] for config in <server configs of one family>: '
+               'self.serverurl = fmt % fields [break]')
+    for k, sg in enumerate(server_url_stages()):
+        out.append('-- realize:%d  stage %d: family %s, guard %s, %s' % (sg['line'], k, sg['family'], sg['guard_src'] or '(none)',
+                                                                        'first one (break)' if sg['first'] else 'last one (no break)'))
+        out.append('def surl_stage%d_family : String := %s' % (k, lean_str(sg['family'])))
+        out.append('def surl_stage%d_guard (serverurl : Option String) : Bool := %s' % (k, sg['guard']))
+        out.append('def surl_stage%d_first : Bool := %s' % (k, 'true' if sg['first'] else 'false'))
+        out.append('def surl_stage%d_fmt : String := %s' % (k, lean_str(sg['fmt'])))
+        out.append('def surl_stage%d_args : List String := %s' % (k, _lean_list(lean_str(a) for a in sg['args'])))
+        out.append('def surl_stage%d_defaults : List (String × String) := %s' % (
+            k, _lean_list('(%s, %s)' % (lean_str(a), lean_str(b)) for a, b in sg['defaults'])))
+    tok, norm = serverurl_auto()
+    out.append("-- _processes_from_section: serverurl = get(section, 'serverurl', None); if serverurl and serverurl.<norm>() == <token>: serverurl = None")
+    out.append('def serverurl_auto_token : String := %s' % lean_str(tok))
+    out.append('def serverurl_auto_norm : List String := %s' % _lean_list(lean_str(a) for a in norm))
     return out
 
 
